@@ -148,7 +148,8 @@ def jobs_for(prop: str, root: str) -> list[dict]:
                             (("reorder",), "runs of undecorated methods / top-level functions reversed"),
                             (("temps",), "temporaries introduced for every returned / raised value and every if-test"),
                             (("walrus", "else"), "walrus tests unfolded into assignments; else branches after return/raise/continue/break added or removed"),
-                            (("reorder", "walrus", "else", "invert", "temps", "rename"), "all six mechanical transformations together")):
+                            (("unmatch",), "simple match statements rewritten as isinstance / == chains with explicit bindings"),
+                            (("reorder", "unmatch", "walrus", "else", "invert", "temps", "rename"), "all seven mechanical transformations together")):
             out.append({"prop": prop, "root": root, "kind": "transform", "which": list(which), "expect": None, "name": f"benign: {what}"})
     bd = os.path.join(VERIF_DIR, "benign")
     if os.path.isdir(bd):
